@@ -4,7 +4,7 @@
    sync.Pool implementation and the scheduler are observed (-race harness with
    value comparison), not proved. *)
 From Coq Require Import ZArith List String.
-From Verif Require Import Model.Effects Proofs.EffectsProofs Proofs.EffectsVerdict.
+From Verif Require Import Model.Effects Proofs.EffectsProofs Proofs.EffectsDocumented Proofs.EffectsVerdictPure Proofs.EffectsVerdictState Proofs.EffectsVerdictConc.
 From Verif Require Gen.EffectsIR.
 Import ListNotations.
 
